@@ -204,6 +204,10 @@ func runSaveRestore(c *Ctx, sp saveRestoreSpec) []Obligation {
 			obs = append(obs, mkOb(c, sp.rule, w.Unit, construct, w.Node, Proved, "not a temporary switch: "+why, false))
 			continue
 		}
+		if via, ok := c.privateHelperOf(w.Unit.Obj, func(n string) bool { _, e := sp.exempt[n]; return e }, 0); ok {
+			obs = append(obs, mkOb(c, sp.rule, w.Unit, construct, w.Node, Proved, "not a temporary switch: private helper of "+via, false))
+			continue
+		}
 		if w.Lit != nil {
 			obs = append(obs, mkOb(c, sp.rule, w.Unit, construct, w.Node, Undecided, "store inside a non-deferred function literal", false))
 			continue
@@ -211,7 +215,7 @@ func runSaveRestore(c *Ctx, sp saveRestoreSpec) []Obligation {
 		info := w.Unit.Pkg.TypesInfo
 		fc := c.cfgOf(w.Unit, nil)
 		loc, found := fc.Locate(w.Node)
-		p, pok := PathOf(info, w.LHS)
+		p, pok := PathOfResolved(info, w.Unit.Decl.Body, w.LHS)
 		if !found || !pok {
 			obs = append(obs, mkOb(c, sp.rule, w.Unit, construct, w.Node, Undecided, "store not locatable / lvalue not an access path", false))
 			continue
